@@ -55,6 +55,19 @@ PROPS['C16'] = dict(engine='negot', fields=['result'], trivial_tags=['absent', '
     trusted_base=COMMON_TB + ['modelled, not verified: HeaderValue::to_str, str::trim restricted to SP/HT (the only whitespace to_str admits)'],
     assumptions=['HeaderMap::get returns the first Accept-Encoding value', 'to_str admits exactly HT, SP..~'])
 
+STREAM_TB = COMMON_TB + ['modelled, not verified: std::sync::Mutex (mutual exclusion), Waker (will_wake iff same waker; wake recorded by the harness wakers), Vec::reserve_exact(cap) giving capacity cap (observable as frame sizes), flate2/miniz_oxide (checked by independent inflaters)']
+STREAM_ASSUME = ['chunk size >= 1 (with_chunk_size(0) is rejected by an assertion in the crate)', 'one thread performs the operations of a history in order (interleavings are C10)']
+def stream_prop(fields, trivial, rule):
+    return dict(engine='stream', fields=fields + ['shape', 'ops'], trivial_tags=trivial, rule=rule, trusted_base=STREAM_TB, assumptions=STREAM_ASSUME)
+PROPS['C08'] = stream_prop(['op.res', 'op.woken', 'hint0', 'eos0', 'writer'], ['raw:head'],
+    'all sequences of <= 4 (quick) / 5 (thorough) operations over {write(0,1,cap-1,cap,cap+1,2cap,3cap bytes), flush, poll-until-pending} for chunk sizes 1..4, each followed by drop + drain (exhaustive); random sequences of <= 40 operations (write, write_all, flush, poll, poll-until-pending, same or fresh waker) for chunk sizes {1,2,3,4,7,4096,65536}. Payload bytes carry their position. Non-trivial = the request has a writer.' + GEN_NOTE)
+PROPS['C11'] = stream_prop(['op.res', 'op.woken', 'op.eos', 'op.hint'], [],
+    'an abort or a body drop inserted at every position of every sequence of <= 3 (quick) / 4 (thorough) operations over {write(1,cap,cap+1,3cap), flush, poll-until-pending} x chunk sizes {1,2,4} x raw and gzip writers, followed by 3 x (write, flush), drain, drop; the 1000 x (write, flush) after body drop scenario; random sequences with a fault.' + GEN_NOTE)
+PROPS['C09'] = stream_prop(['op.res', 'hdrs', 'writer'], [],
+    'gzip levels 1..9 x chunk sizes {1,2,3,5,8,10,18,19,4096,65536} x payloads {empty, 1 byte, incompressible, highly compressible, text; 600 B for tiny chunks, 20 KiB (quick) / 200 KiB (thorough)} x 4 write/flush shapes (one write_all; flush in the middle with drains; many small writes with random flushes; flushes before any data), plus random sequences. Every body is decoded by an independent inflater (Python zlib, streaming) after every flush and at the end.' + GEN_NOTE)
+PROPS['C17'] = stream_prop(['hdrs', 'writer', 'op.res'], [],
+    '21 Accept-Encoding values (absent, empty, gzip/identity/* with weights, other codings, malformed) x gzip level 0..9 x chunk sizes {1,7,4096} x methods {GET, HEAD, POST} x {Request, Parts} (a third sampled per seed in the quick tier); the body is decoded according to the Content-Encoding header and compared with the payload.' + GEN_NOTE)
+
 def known_class(prop, specfail, known_here):
     """Returns the known-finding entry whose class contains this failing case, if any."""
     for k in known_here:
@@ -84,7 +97,7 @@ def relevant(field, patterns):
     return False
 
 def explore(prop, cfg, tier, seed, work, result, T):
-    if cfg['engine'] in ('serve', 'negot'):
+    if cfg['engine'] in ('serve', 'negot', 'stream'):
         return explore_lines(prop, cfg, tier, seed, work, result, T)
     raise RuntimeError('unknown engine')
 
@@ -126,6 +139,7 @@ def explore_lines(prop, cfg, tier, seed, work, result, T):
     result['evaluations'] = n
     res = T['read_results'](os.path.join(work, 'all.out'))
     wanted = {}
+    gz_ids = set()
     trivial = set(cfg.get('trivial_tags', []))
     interesting = {}
     for cid, findings in res.items():
@@ -147,6 +161,8 @@ def explore_lines(prop, cfg, tier, seed, work, result, T):
             elif kind == 'BAD':
                 result['bad'].append(cid)
         interesting[cid] = tag
+        if tag.startswith('gzip') and cfg['engine'] == 'stream':
+            gz_ids.add(cid)
         chk = meta.get(cid, ('', ''))[1]
         for c in [x for x in chk.split(',') if x]:
             if c.startswith(prop + ':'):
@@ -155,8 +171,15 @@ def explore_lines(prop, cfg, tier, seed, work, result, T):
                 result['oracle_checks'].append('%s: %s' % (cid, c))
     # one pass over the case file: hashes for distinctness, lines for replays, samples
     nsamples = 0
+    ngz = 0
     for l in open(cases):
         eng, cid, rest = l.rstrip('\n').split(' ', 2)
+        if cid in gz_ids:
+            v, _ = T['parse_val'](rest.split())
+            ngz += 1
+            for c in gz_oracle(prop, v):
+                if c.startswith(prop + ':'):
+                    wanted.setdefault(cid, []).append(('spec', c, '', ''))
         tag = interesting.get(cid, '')
         if tag and tag not in trivial:
             # the input is the first element of the case value: hash up to the observation is enough
@@ -169,6 +192,86 @@ def explore_lines(prop, cfg, tier, seed, work, result, T):
             for kind, field, m, i in wanted[cid]:
                 rec = {'id': cid, 'line': l.rstrip('\n'), 'class': meta.get(cid, ('', ''))[0], 'field': field, 'model': m, 'impl': i, 'clause': field}
                 (result['divergences'] if kind == 'div' else result['specfails']).append(rec)
+    if ngz:
+        result['extra']['gzip_bodies_decoded_by_independent_inflater'] = ngz
+
+def gz_oracle(prop, toks_val):
+    """Independent inflater (Python zlib, streaming) over a gzip stream-engine case.
+    Returns clause names that fail. Clauses are attributed to C09 (and C17 for coding/header agreement)."""
+    import zlib
+    inp, obs = toks_val
+    if not isinstance(obs, list) or len(obs) != 5:
+        return []
+    cap, level, meth, ae, parts, ops = inp
+    hdrs, has_writer, h0, e0, results = obs
+    fails = []
+    accepted = b''
+    out = b''
+    d = zlib.decompressobj(31)
+    exact, aborted, reader, failed = True, False, True, False
+    flushed = not has_writer
+    nshort = 0      # frames shorter than the chunk size: each must have been queued by a flush or the drop
+    nflush = 0
+    try:
+        for op, res in zip(ops, results):
+            code = op[0]
+            r = res[0]
+            if code == 0:
+                if isinstance(r, list) and r and r[0] == 0:
+                    accepted += op[1][:r[1]]
+                    if r[1] > 0:
+                        flushed = False
+                else:
+                    failed = True
+            elif code == 1:
+                if r == [2]:
+                    accepted += op[1]
+                    if len(op[1]) > 0:
+                        flushed = False
+                else:
+                    exact = False
+                    failed = True
+            elif code == 2:
+                nflush += 1
+                if r == [2]:
+                    flushed = True
+                else:
+                    failed = True
+            elif code == 3:
+                aborted = True
+            elif code == 4:
+                nflush += 1
+                flushed = True
+            elif code == 6:
+                reader = False
+            elif code == 5:
+                if isinstance(r, bytes):
+                    if len(r) == 0 or len(r) > cap:
+                        fails.append('C09:frame-size-within-chunk-size')
+                    if len(r) < cap:
+                        nshort += 1
+                        if nshort > nflush:
+                            fails.append('C09:short-frame-only-from-flush-or-drop')
+                    out += d.decompress(r)
+                elif r in ([4], [5]):
+                    if flushed and exact and not aborted and reader and not failed:
+                        if out != accepted:
+                            fails.append('C09:flush-makes-written-bytes-decodable')
+                    if r == [5] and exact and not aborted and reader and not failed and has_writer:
+                        if not d.eof:
+                            fails.append('C09:one-valid-gzip-member')
+                        elif d.unused_data != b'':
+                            fails.append('C09:no-trailing-bytes-after-member')
+                        if out != accepted:
+                            fails.append('C09:decompresses-to-written-bytes')
+    except zlib.error as e:
+        fails.append('C09:inflater-rejects-stream')
+    if prop == 'C17':
+        fails = ['C17:gzip-header-but-body-not-gzip-of-payload' for f in fails[:1]]
+    return fails
+
+def _noop():
+    pass
 
 def input_part(rest):
     """Text of the input value (first element of the top-level list)."""
